@@ -71,6 +71,30 @@ def spread_cases():
     return out
 
 
+def access_cases():
+    """field access on values whose static type is a union of tuple variants of different arities / label sets:
+    every access the compiler accepts must be valid for EVERY variant (positional and named, on the parameter,
+    on a variable, nested); most of these are rejected, which is fine - the accepted ones must not get stuck
+    (seeded change C01-2: a positional access was accepted when at least one variant had the position)"""
+    unions = [("Circle['int] | Rect['int, 'int]", ["Circle[3]", "Rect[2, 5]"]),
+              ("[] | ['int, 'int]", ["[]", "[1, 2]"]),
+              ("A[x: 'int] | B[x: 'int, y: 'bin]", ["A[x: 1]", "B[x: 2, y: 0x01]"]),
+              ("P['int, 'bin] | P['int]", ["P[1, 0x02]", "P[7]"]),
+              ("W[['int, 'int]] | W[['int]]", ["W[[1, 2]]", "W[[3]]"]),
+              ("['int] | ['int, 'int] | ['int, 'int, 'int]", ["[1]", "[1, 2]", "[1, 2, 3]"])]
+    forms = ["{ .0 }", "{ .1 }", "{ .2 }", "{ $.1 }", "{ =v => v.1 }", "{ .x }", "{ .y }", "{ .0.1 }", "{ =v => [v.0, v.1] }",
+             "{ | =Circle[r] => r | .1 }", "{ | =[] => 0 | .1 }", "{ | =A[x: n] => n | .y }"]
+    out = []
+    for ty, args in unions:
+        for form in forms:
+            for a in args:
+                out.append("f = #(%s) %s, %s f" % (ty, form, a))
+        # ... and on a variable bound to a block whose branches have different shapes
+    out += ["x = 2 { | =2 => [1] | [1, 2] }, x.1", "x = 3 { | =2 => [1] | [1, 2] }, x.1",
+            "x = 2 { | =2 => A[x: 1] | B[x: 1, y: 2] }, x.y", "x = 2 { | =2 => [1] | [1, 2] }, [x.0, x.1]"]
+    return out
+
+
 def cross_product(rnd, limit):
     out = []
     for nv in (2, 3):
@@ -105,6 +129,8 @@ def run(prop, tier):
         reqs.append({"id": "t%d" % n, "src": src, "kind": "extra"})
     for n, src in enumerate(spread_cases()):
         reqs.append({"id": "s%d" % n, "src": src, "kind": "spreads"})
+    for n, src in enumerate(access_cases()):
+        reqs.append({"id": "a%d" % n, "src": src, "kind": "access"})
     progs = [s for _, s in corpus.test_sources() + corpus.spec_blocks()]
     rnd.shuffle(progs)
     for n, src in enumerate(progs[:400 if tier == "quick" else len(progs)]):
